@@ -271,6 +271,66 @@ Theorem C19_scram_object_challenge :
 Proof. exact scram_obj_on_challenge_ok. Qed.
 Print Assumptions C19_scram_object_challenge.
 
+(* ---- mutual authentication THROUGH THE SESSION (protocol.py: ApplicationSession.onMessage/WELCOME and the gate
+   _SessionShim.onWelcome in front of IAuthenticator.on_welcome; model: shim_welcome_gate, session_on_welcome) ----
+   The session joins exactly when the gate lets the WELCOME pass without an authenticator, or hands it to the
+   authenticator registered under WELCOME.authmethod and that authenticator's on_welcome returns None. *)
+Theorem C19_session_joined_iff : forall (HMAC256 : bytes -> bytes -> bytes) strict configured o authmethod ax,
+  session_on_welcome HMAC256 strict configured o authmethod ax = Joined <->
+  shim_welcome_gate strict configured authmethod = GateSkip \/
+  exists m, shim_welcome_gate strict configured authmethod = GateRun m /\
+            authenticator_on_welcome HMAC256 o m ax = Ok Accept.
+Proof. exact session_joined_iff. Qed.
+Print Assumptions C19_session_joined_iff.
+
+(* MAIN STATEMENT for the code as it stands (strict gate, /repo commit "fix: refuse a WELCOME without authmethod when
+   authentication was requested"; harness/props/c19.py reads the gate's shape off protocol.py's AST on every run, fail
+   closed): with authenticators configured, none of them anonymous, the session joins ONLY IF the WELCOME names a
+   configured authmethod and that authenticator's on_welcome ran and accepted (session_join_implies_verified is
+   defined in Proofs/AuthProofs.v) - for every WELCOME: authmethod absent / unknown / other, authextra absent / {} /
+   wrong type / any signature. *)
+Theorem C19_session_join_implies_verified : session_join_implies_verified true.
+Proof. exact session_join_verified_strict. Qed.
+Print Assumptions C19_session_join_implies_verified.
+
+(* Regression statement (defect F-C19-2): false of the earlier, lenient gate (`if msg.authmethod is None or
+   self._authenticators is None: return`): a WELCOME without authmethod joined a scram-only session unverified *)
+Theorem C19_session_join_lenient_gate_refuted : ~ session_join_implies_verified false.
+Proof. exact session_join_verified_lenient_refuted. Qed.
+Print Assumptions C19_session_join_lenient_gate_refuted.
+
+Theorem C19_session_join_lenient_gate_partial : forall (HMAC256 : bytes -> bytes -> bytes) names o authmethod ax,
+  session_on_welcome HMAC256 false (Some names) o authmethod ax = Joined ->
+  authmethod = None \/
+  exists m, authmethod = Some m /\ In m names /\ authenticator_on_welcome HMAC256 o m ax = Ok Accept.
+Proof. exact session_join_lenient_partial. Qed.
+Print Assumptions C19_session_join_lenient_gate_partial.
+
+(* "AuthScram.on_welcome ran and accepted", as the session calls it: authextra must be a dict whose
+   "scram_server_signature" is str/bytes decoding to the exact server signature of a fully challenged object
+   (authextra absent/null -> TypeError, {} -> KeyError, a non-text value -> TypeError: all ABORT) *)
+Theorem C19_session_scram_accept_iff : forall (HMAC256 : bytes -> bytes -> bytes) o ax,
+  scram_session_on_welcome HMAC256 o ax = Ok Accept <->
+  exists v sp am, ax = AxDict (Some (SvText v)) /\ so_sp o = Some sp /\ so_am o = Some am /\
+                  b64decode v = Ok (rfc5802_server_signature HMAC256 (rfc5802_server_key HMAC256 sp) am).
+Proof. exact scram_session_accept_inv. Qed.
+Print Assumptions C19_session_scram_accept_iff.
+
+(* end to end, scram-only session, all histories of the authenticator, every WELCOME: joined -> authmethod = "scram",
+   a CHALLENGE of the history completed its KDF, and the WELCOME carries exactly that state's server signature *)
+Theorem C19_session_scram_only_mutual :
+  forall (H256 : bytes -> bytes) (HMAC256 : bytes -> bytes -> bytes) (PBKDF2 ARGON2ID : bytes -> bytes -> N -> N -> result bytes)
+         (SASLPREP : str -> result str) (REPR_BYTES : bytes -> str) ds password authid ops o' outs authmethod ax,
+  scram_obj_run H256 HMAC256 PBKDF2 ARGON2ID SASLPREP REPR_BYTES ds password authid scram_fresh ops = (o', outs) ->
+  session_on_welcome HMAC256 true (Some [lit "scram"]) o' authmethod ax = Joined ->
+  authmethod = Some (lit "scram") /\
+  exists x pw sp am v,
+    In (OpChallenge x) ops /\ utf8_encode password = Ok pw /\ scram_kdf PBKDF2 ARGON2ID ds pw x = Ok sp /\
+    so_sp o' = Some sp /\ so_am o' = Some am /\ ax = AxDict (Some (SvText v)) /\
+    b64decode v = Ok (rfc5802_server_signature HMAC256 (rfc5802_server_key HMAC256 sp) am).
+Proof. exact session_scram_only_mutual. Qed.
+Print Assumptions C19_session_scram_only_mutual.
+
 (* kdf = "pbkdf2" with the salt as the router sends it (base64 text, a str) - the RFC 5802 / RFC 7677 setting.
    MAIN STATEMENT for the code as it stands (auth.py base64-decodes the salt before PBKDF2; harness/props/c19.py
    reads exactly that expression off auth.py's AST on every run, fails closed on anything it does not recognise, and
@@ -406,6 +466,26 @@ Example C19_scram_history_witness :
     end
   end.
 Proof. vm_compute. repeat split; try reflexivity. eexists. reflexivity. Qed.
+
+(* the session gate on a fully challenged toy object: only WELCOME(authmethod="scram") with the exact signature joins *)
+Example C19_session_witness :
+  let o := {| so_nonce := Some (lit "n"); so_am := Some (lit "n=user,r=n,..."); so_sp := Some (lit "salted") |} in
+  let good := b64encode (rfc5802_server_signature (toy_mac 32) (rfc5802_server_key (toy_mac 32) (lit "salted")) (lit "n=user,r=n,...")) in
+  let scram := Some [lit "scram"] in
+  let run := session_on_welcome (toy_mac 32) in
+  run true scram o (Some (lit "scram")) (AxDict (Some (SvText (VStr good)))) = Joined /\
+  run true scram o (Some (lit "scram")) AxAbsent = Aborted /\
+  run true scram o (Some (lit "scram")) (AxDict None) = Aborted /\
+  run true scram o (Some (lit "scram")) (AxDict (Some SvOther)) = Aborted /\
+  run true scram o (Some (lit "scram")) (AxDict (Some (SvText (VStr (lit "QUJD"))))) = Aborted /\
+  run true scram o None (AxDict (Some (SvText (VStr good)))) = Aborted /\
+  run false scram o None AxAbsent = Joined /\                                   (* the lenient gate: F-C19-2 *)
+  run true scram o (Some (lit "ticket")) AxAbsent = Aborted /\
+  run true (Some [lit "scram"; lit "ticket"]) o (Some (lit "ticket")) AxAbsent = Joined /\   (* the client offered ticket *)
+  run true (Some [lit "anonymous"]) o None AxAbsent = Joined /\
+  run true None o None AxAbsent = Joined /\
+  run true scram scram_fresh (Some (lit "scram")) (AxDict (Some (SvText (VStr good)))) = Aborted.
+Proof. vm_compute. repeat split; reflexivity. Qed.
 
 (* RFC 6238 appendix B, T = 59 s (counter 1): with the real HMAC-SHA-1 value of RFC 4226 appendix D for count 1
    supplied as the oracle's answer, the model yields "287082" (the last six digits of the RFC's 94287082) *)
